@@ -68,8 +68,11 @@ func (e *Embed) GenerateOutput(textOnly bool) string {
 	// TODO: Maybe just to be save we should sanitize it.
 	tagName := dom.TagName(e.Element)
 	if tagName == "blockquote" || tagName == "iframe" {
-		domutil.StripAttributes(e.Element)
-		dom.AppendChild(embed, e.Element)
+		// Work on a processed copy: like every other retained subtree it must
+		// not carry script/style or hidden elements, nor unsafe attributes.
+		if cloned := domutil.CloneAndProcessTree(e.Element, nil); cloned != nil {
+			dom.AppendChild(embed, cloned)
+		}
 	}
 
 	return dom.OuterHTML(embed)
